@@ -60,7 +60,7 @@ Proof. unfold loop_vals. rewrite get_integer_eq. reflexivity. Qed.
 Lemma gen_ref_eq vals r : gen_ref imapS f1 vals r = gen_ref imapS f2 vals r.
 Proof.
   destruct r; simpl; try reflexivity. destruct vals as [vs|]; [|reflexivity].
-  destruct (k =? 0)%Z; [reflexivity|]. rewrite (imapS_ext (map_mode f1) (map_mode f2)). reflexivity.
+  destruct (is_bare ix); [reflexivity|]. rewrite (imapS_ext (map_mode f1) (map_mode f2)). reflexivity.
 Qed.
 
 (* ---- expressions ---- *)
